@@ -186,6 +186,11 @@ def decide(pid, prop, cases, results, problems, tier, seed, wall, out_dir):
         "case_errors": errors,
         "inconclusive_reasons": inconcl[:8],
         "exhaustive": bool(getattr(prop, "EXHAUSTIVE", False)),
+        "slowest_cases": [
+            {"case": {k: v for k, v in cases[i].items() if not isinstance(v, (dict, list))}
+             if isinstance(cases[i], dict) else i, "seconds": results[i].get("t")}
+            for i in sorted(results, key=lambda j: -(results[j].get("t") or 0))[:3]
+        ],
     }
     if hasattr(prop, "summarize"):
         try:
